@@ -25,6 +25,28 @@ CHECKS = {
             "danger_space calls on real extra-data trajectories are projected to per-row classifications and validated by the trace spec.",
             "Bounded sequences over small integer drops; real trajectories are sampled (seeded); boundary classification uses a 1e-9 band.",
             "DESIGN.md §4 C16"),
+    "C06": ("TLA+ spec UnitAlgebra.tla (SI definition table as exact factored rationals; conversion-chain state machine) "
+            "model-checked by TLC; all 287 pairs / 2267 triples exported by TLC and replayed into the real unit classes",
+            "TLC checks path independence and round-trip identity of the exact conversion maps over all chains of <=3 (thorough 4) "
+            "conversions and the sanity of the definition table; the exported exact map of every ordered pair and triple is "
+            "compared with the implementation on a magnitude set through 5 conversion spellings (1e-6 vs SI, 16 ulps round trip / composition).",
+            "Unit pairs/triples exhaustive, magnitudes sampled (seeded); float comparisons are done by the harness with the spec's exact "
+            "rationals (pi as 50-digit rational); angles within one turn, tangent-based units |angle|<=0.5 rad.",
+            "DESIGN.md §4 C06"),
+    "C17": ("TLA+ spec Powder.tla (Ammo state machine with exact rationals) model-checked by TLC; every behaviour of 3 operations "
+            "emitted by TLC (Gen_Powder) is replayed on a real Ammo, launch velocity through Calculator.fire",
+            "TLC checks disabled=stated, anchored, linear-per-15C, calibration reproduced and reject-leaves-state over all operation "
+            "sequences; all generated behaviours are replayed on the implementation with temperatures and velocities in rotating units; "
+            "the velocity the solver launches with is read from row 0 of a real fire for air / explicit powder temperature.",
+            "Bounded value sets (3 velocities, 4 temperatures, 3 modifiers; thorough adds simulated depth-6 behaviours over larger sets).",
+            "DESIGN.md §4 C17"),
+    "C19": ("TLA+ spec Sight.tla (construct/adjust state machine, exact rational click counts) model-checked by TLC; every "
+            "(sight, request) emitted by TLC replayed on the real Sight through both entry points and several units",
+            "TLC checks the constructor outcome table, sign, linearity, axis independence and FFP invariance for all sights/requests of "
+            "the bounded model; all cases are replayed into Sight.get_adjustment / get_trajectory_adjustment and compared with the "
+            "spec's exact rational (1e-9).",
+            "Bounded grids of click sizes, distances, magnifications and corrections; unit variants from the UnitAlgebra table (linear angular units only).",
+            "DESIGN.md §4 C19"),
 }
 
 NOT_APPLICABLE = {
